@@ -21,7 +21,7 @@ def build_thr(variant, san='asan', fn=False, repo=None, io=False):
         extra += ['-Dwrite=vs_write', '-Dwritev=vs_writev', '-Dclose=vs_close', '-Dfprintf=vs_fprintf', '-Dprintf=vs_printf', '-Dfputs=vs_fputs', '-Dfputc=vs_fputc', '-Dputs=vs_puts',
                   '-Dfwrite=vs_fwrite', '-Dfflush=vs_fflush', '-Dumask=vs_umask', '-Dopen=vs_open']
     # non-reentrant libc calls: redirected to instrumented stand-ins with a scheduling point (native/nonreentrant.c)
-    extra += ['-D%s=vs_%s' % (f, f) for f in NONREENTRANT] + ['-Dtzset=vs_tzset', '-Dlocaltime_r=vs_localtime_r', '-Dstrftime=vs_strftime', '-Dgetlogin_r=vs_getlogin_r']     # tzset: libc lock held across system calls (see nonreentrant.c)
+    extra += ['-D%s=vs_%s' % (f, f) for f in NONREENTRANT] + ['-Dtzset=vs_tzset', '-Dlocaltime_r=vs_localtime_r', '-Dstrftime=vs_strftime', '-Dgetlogin_r=vs_getlogin_r', '-Dflockfile=vs_flockfile', '-Dfunlockfile=vs_funlockfile']     # tzset: libc lock held across system calls (see nonreentrant.c)
     v = build.build_variant(variant, san=san, sched=True, extra_cflags=extra, repo=repo)
     rec = build.build_shared('librec.so', [os.path.join(NATIVE, 'rec.c')])
     # the scheduler itself: no sanitizer, no instrumentation
